@@ -2,7 +2,7 @@
    The executable model itself is shared: Model/Heap.v (heap + Node/Edge methods) and
    Model/HeapOps.v (Tree methods, `op`, `run_op`).  Definitions only. *)
 From Coq Require Import ZArith List Bool.
-From DV Require Import Model.PyPrims Model.Tree Model.Heap Model.HeapOps Model.C03Spec Model.C03Bip.
+From DV Require Import Model.PyPrims Model.Tree Model.Heap Model.HeapOps Model.C03Spec Model.C03Bip Model.C03BipObj.
 Import ListNotations.
 Open Scope Z_scope.
 
@@ -31,7 +31,12 @@ Record step := mkStep {
   s_incr : bool;               (* suppress_unifurcations(update_bipartitions=True): incremental maintenance *)
   s_enc : option (list (Z * Z))
     (* when the call was asked to update bipartitions and returned: Tree.bipartition_encoding as
-       (owner node of the Bipartition object, _leafset_bitmask), in list order *)
+       (owner node of the Bipartition object, _leafset_bitmask), in list order *);
+  s_obj : option (list (list Z) * list Z)
+    (* wave 7, object level (Model/C03BipObj.v obj_dump): per edge in post-order [node; number of the
+       Bipartition object its edge carries; _split_bitmask; _leafset_bitmask; _is_rooted (0 None, 1 False,
+       2 True)], and Tree.bipartition_encoding as object numbers (identities numbered by first occurrence,
+       edges first); given after an operation asked to update bipartitions and after encode_bipartitions *)
 }.
 
 Record case := mkCase {
@@ -71,6 +76,24 @@ Definition enc_ok (s : step) (h0 h : heap) : bool :=
     list_eqb pair_eqb (psort expected) (psort l)
   end.
 
+(* object level: where the Bipartition objects are after the step.  An operation asked to update bipartitions
+   ends in encode_bipartitions, run under the rooting flag the operation leaves; the incremental maintainer
+   filters the list of the encoding the harness made current just before the call (under the flag before). *)
+Definition obj_step (s : step) (e : option err) (h0 h : heap) (b : bstate) : bstate :=
+  match e, s_obj s, abs h0, abs h with
+  | None, Some _, Some t0, Some t =>
+    if s_incr s then obj_su_incremental t0 (obj_encode (rooted h0) t0 b)
+    else obj_after_ub (rooted h) t b
+  | _, _, _, _ => b
+  end.
+
+Definition obj_ok (s : step) (h : heap) (b : bstate) : bool :=
+  match s_obj s, abs h with
+  | Some d, Some t => dump_eqb (obj_dump b t) d
+  | Some _, None => false
+  | None, _ => true
+  end.
+
 Definition step_ok (s : step) (e : option err) (h0 h : heap) : bool :=
   option_eqb err_eqb e (s_err s)
   && match abs h with
@@ -80,18 +103,20 @@ Definition step_ok (s : step) (e : option err) (h0 h : heap) : bool :=
   && obool_eqb (rooted h) (s_rooted s)
   && enc_ok s h0 h.
 
-Fixpoint check_steps (v : variants) (l : list step) (h : heap) : bool :=
+Fixpoint check_steps (v : variants) (l : list step) (h : heap) (b : bstate) : bool :=
   match l with
   | [] => true
   | s :: r =>
     match observe_model (run_op_v v (s_op s) h) with
-    | Some (e, h') => step_ok s e h h' && check_steps v r h'
+    | Some (e, h') =>
+      let b' := obj_step s e h h' b in
+      step_ok s e h h' && obj_ok s h' b' && check_steps v r h' b'
     | None => false
     end
   end.
 
 Definition case_ok (c : case) : bool :=
-  check_steps (c_var c) (c_steps c) (of_tree (c_init c) (c_rooted c)).
+  check_steps (c_var c) (c_steps c) (of_tree (c_init c) (c_rooted c)) bs_empty.
 
 (* diagnostics: what the model computes after each step *)
 Fixpoint run_steps (v : variants) (l : list step) (h : heap) : list (option (option err) * list Z * option bool) :=
